@@ -6,6 +6,10 @@ Notation "a =c b" := (Ascii.eqb a b) (at level 70).
 Definition at_ (k : nat) (l : str) : ascii := nth k l (c 0).
 Definition has_at (k : nat) (l : str) : bool := k <? List.length l.
 Definition isnil (l : str) : bool := match l with [] => true | _ => false end.
+(* Python str.strip() on ASCII: characters for which str.isspace() holds *)
+Definition py_space (x : ascii) : bool := let n := nat_of_ascii x in ((9 <=? n) && (n <=? 13)) || ((28 <=? n) && (n <=? 32)).
+Fixpoint py_lstrip (l : str) : str := match l with x :: r => if py_space x then py_lstrip r else l | [] => [] end.
+Definition py_strip (l : str) : str := rev (py_lstrip (rev (py_lstrip l))).
 Fixpoint streq (a b : str) : bool := match a, b with [], [] => true | x :: a', y :: b' => (x =c y) && streq a' b' | _, _ => false end.
 Inductive res (A : Type) := Ok (a : A) | Err (site : nat).
 Arguments Ok {A} a. Arguments Err {A} site.
@@ -127,3 +131,103 @@ Definition _parse_npath (npath : str) : res (list (str * bool)) :=
 Ok segments_27)))))))) end))))))).
 
 (* raise sites: 8 *)
+(* GENERATED from expressions/binding.py:_split_attrpath (idiom B over a state tuple) *)
+Definition STATE__split_attrpath : Type := (list str * str * bool * bool * nat * bool * bool)%type.
+Fixpoint _split_attrpath_loop (fuel : nat) (rest : str) (st : STATE__split_attrpath) : res STATE__split_attrpath :=
+  match fuel with O => (if has_at 0 rest then Err 0 else Ok st) | S fuel' =>
+  if has_at 0 rest then
+  let '(segments, buffer, in_quotes, escape, interp_depth, interp_in_quotes, interp_escape) := st in
+(let ch_8 := (at_ 0 rest) in
+(if (0 <? interp_depth)
+ then (let buffer_9 := buffer ++ [ch_8] in
+(if interp_in_quotes
+ then (if interp_escape
+ then (let interp_escape_10 := false in
+_split_attrpath_loop fuel' (skipn 1 rest) (segments, buffer_9, in_quotes, escape, interp_depth, interp_in_quotes, interp_escape_10))
+ else (if (ch_8 =c (c 92))
+ then (let interp_escape_11 := true in
+_split_attrpath_loop fuel' (skipn 1 rest) (segments, buffer_9, in_quotes, escape, interp_depth, interp_in_quotes, interp_escape_11))
+ else (if (ch_8 =c (c 34))
+ then (let interp_in_quotes_12 := false in
+_split_attrpath_loop fuel' (skipn 1 rest) (segments, buffer_9, in_quotes, escape, interp_depth, interp_in_quotes_12, interp_escape))
+ else _split_attrpath_loop fuel' (skipn 1 rest) (segments, buffer_9, in_quotes, escape, interp_depth, interp_in_quotes, interp_escape))))
+ else (if (ch_8 =c (c 34))
+ then (let interp_in_quotes_13 := true in
+_split_attrpath_loop fuel' (skipn 1 rest) (segments, buffer_9, in_quotes, escape, interp_depth, interp_in_quotes_13, interp_escape))
+ else (if (ch_8 =c (c 123))
+ then (let interp_depth_14 := S interp_depth in
+_split_attrpath_loop fuel' (skipn 1 rest) (segments, buffer_9, in_quotes, escape, interp_depth_14, interp_in_quotes, interp_escape))
+ else (if (ch_8 =c (c 125))
+ then (let interp_depth_15 := Nat.pred interp_depth in
+_split_attrpath_loop fuel' (skipn 1 rest) (segments, buffer_9, in_quotes, escape, interp_depth_15, interp_in_quotes, interp_escape))
+ else _split_attrpath_loop fuel' (skipn 1 rest) (segments, buffer_9, in_quotes, escape, interp_depth, interp_in_quotes, interp_escape))))))
+ else (if in_quotes
+ then (if ((negb escape) && (ch_8 =c (c 36)) && (has_at 1 rest))
+ then (if ((at_ 1 rest) =c (c 123))
+ then (let buffer_16 := buffer ++ [ch_8] in
+(let buffer_17 := buffer_16 ++ [(c 123)] in
+(let interp_depth_18 := 1 in
+_split_attrpath_loop fuel' (skipn 2 rest) (segments, buffer_17, in_quotes, escape, interp_depth_18, interp_in_quotes, interp_escape))))
+ else (let buffer_19 := buffer ++ [ch_8] in
+(if escape
+ then (let escape_20 := false in
+_split_attrpath_loop fuel' (skipn 1 rest) (segments, buffer_19, in_quotes, escape_20, interp_depth, interp_in_quotes, interp_escape))
+ else (if (ch_8 =c (c 92))
+ then (let escape_21 := true in
+_split_attrpath_loop fuel' (skipn 1 rest) (segments, buffer_19, in_quotes, escape_21, interp_depth, interp_in_quotes, interp_escape))
+ else (if (ch_8 =c (c 34))
+ then (let in_quotes_22 := false in
+_split_attrpath_loop fuel' (skipn 1 rest) (segments, buffer_19, in_quotes_22, escape, interp_depth, interp_in_quotes, interp_escape))
+ else _split_attrpath_loop fuel' (skipn 1 rest) (segments, buffer_19, in_quotes, escape, interp_depth, interp_in_quotes, interp_escape))))))
+ else (let buffer_23 := buffer ++ [ch_8] in
+(if escape
+ then (let escape_24 := false in
+_split_attrpath_loop fuel' (skipn 1 rest) (segments, buffer_23, in_quotes, escape_24, interp_depth, interp_in_quotes, interp_escape))
+ else (if (ch_8 =c (c 92))
+ then (let escape_25 := true in
+_split_attrpath_loop fuel' (skipn 1 rest) (segments, buffer_23, in_quotes, escape_25, interp_depth, interp_in_quotes, interp_escape))
+ else (if (ch_8 =c (c 34))
+ then (let in_quotes_26 := false in
+_split_attrpath_loop fuel' (skipn 1 rest) (segments, buffer_23, in_quotes_26, escape, interp_depth, interp_in_quotes, interp_escape))
+ else _split_attrpath_loop fuel' (skipn 1 rest) (segments, buffer_23, in_quotes, escape, interp_depth, interp_in_quotes, interp_escape))))))
+ else (if (ch_8 =c (c 34))
+ then (let in_quotes_27 := true in
+(let buffer_28 := buffer ++ [ch_8] in
+_split_attrpath_loop fuel' (skipn 1 rest) (segments, buffer_28, in_quotes_27, escape, interp_depth, interp_in_quotes, interp_escape)))
+ else (if ((ch_8 =c (c 36)) && (has_at 1 rest) && ((at_ 1 rest) =c (c 123)))
+ then (let buffer_29 := buffer ++ [ch_8] in
+(let buffer_30 := buffer_29 ++ [(c 123)] in
+(let interp_depth_31 := 1 in
+_split_attrpath_loop fuel' (skipn 2 rest) (segments, buffer_30, in_quotes, escape, interp_depth_31, interp_in_quotes, interp_escape))))
+ else (if (ch_8 =c (c 46))
+ then (let segment_32 := (py_strip buffer) in
+(if (negb (negb (isnil segment_32)))
+ then Err 64
+ else (let segments_33 := segments ++ [segment_32] in
+(let buffer_34 : str := [] in
+_split_attrpath_loop fuel' (skipn 1 rest) (segments_33, buffer_34, in_quotes, escape, interp_depth, interp_in_quotes, interp_escape)))))
+ else (let buffer_35 := buffer ++ [ch_8] in
+_split_attrpath_loop fuel' (skipn 1 rest) (segments, buffer_35, in_quotes, escape, interp_depth, interp_in_quotes, interp_escape))))))))
+  else Ok st end.
+Definition _split_attrpath (text : str) : res (list str) :=
+(let segments_1 : list str := [] in
+(let buffer_2 : str := [] in
+(let in_quotes_3 := false in
+(let escape_4 := false in
+(let interp_depth_5 := 0 in
+(let interp_in_quotes_6 := false in
+(let interp_escape_7 := false in
+(match _split_attrpath_loop (List.length text) text (segments_1, buffer_2, in_quotes_3, escape_4, interp_depth_5, interp_in_quotes_6, interp_escape_7) with
+ | Err e => Err e
+ | Ok st => let '(segments', buffer', in_quotes', escape', interp_depth', interp_in_quotes', interp_escape') := st in
+(if (0 <? interp_depth')
+ then Err 73
+ else (if in_quotes'
+ then Err 75
+ else (let segment_36 := (py_strip buffer') in
+(if (negb (negb (isnil segment_36)))
+ then Err 79
+ else (let segments_37 := segments' ++ [segment_36] in
+Ok segments_37))))) end)))))))).
+
+(* raise sites: 4 *)
